@@ -441,8 +441,11 @@ func Encode(w *wl.Workload, l Layout) ([]byte, int, error) {
 		}
 		c := cur
 		cur = nil
-		// trailing unknown records addressed past the last inner record
+		// trailing unknown records addressed past the last inner record (Pos = record count, or -1)
 		for _, u := range unkChunk[[2]int{nChunks, c.nInner}] {
+			c.b.Unknown(u.Op, u.Body)
+		}
+		for _, u := range unkChunk[[2]int{nChunks, -1}] {
 			c.b.Unknown(u.Op, u.Body)
 		}
 		if l.RepeatDefs == 2 && nChunks > 0 {
